@@ -195,18 +195,20 @@ thread_local! {
     static FENCE_DEPTH: std::cell::Cell<u32> = const { std::cell::Cell::new(0) };
 }
 
+/// Some(true): the library under test, Some(false): harness code, None: undecided (std, a
+/// dependency, or the harness's array backend, which only does what its caller asked)
 fn classify_location(file: &str) -> Option<bool> {
-    if file.ends_with("advkind.rs") {
-        // the second backend is called by the library (and by the C07 self-check): decide by the caller
+    if file.ends_with("advkind.rs") || file.ends_with("src/engine.rs") {
         return None;
     }
-    if file.starts_with("/repo/") || file.contains("open-hypergraphs") {
-        Some(true)
-    } else if file.starts_with("src/") || file.contains("/verif/") || file.contains("harness") {
-        Some(false)
-    } else {
-        None
+    if file.starts_with("/rustc/") || file.contains("/.cargo/") || file.contains("/library/") {
+        return None;
     }
+    if file.contains("harness/src/") || file.starts_with("src/") || file.starts_with("./src/") || file.contains("/fuzz_targets/") {
+        return Some(false);
+    }
+    // anything else is the path dependency: the library, wherever its sources live
+    Some(true)
 }
 
 pub fn install_panic_hook() {
@@ -238,16 +240,12 @@ pub fn install_panic_hook() {
                 for line in bt.lines() {
                     let l = line.trim_start();
                     let Some(path) = l.strip_prefix("at ") else { continue };
-                    if path.starts_with("/rustc/") || path.contains("src/advkind.rs") || path.contains("src/engine.rs") {
-                        continue;
-                    }
-                    if path.starts_with("/repo/") || path.contains("open-hypergraphs") {
-                        verdict = true;
-                        break;
-                    }
-                    if path.contains("harness/src/") || path.starts_with("src/") || path.starts_with("./src/") {
-                        verdict = false;
-                        break;
+                    match classify_location(path.rsplit_once(':').map(|x| x.0).unwrap_or(path).rsplit_once(':').map(|x| x.0).unwrap_or(path)) {
+                        None => continue,
+                        Some(b) => {
+                            verdict = b;
+                            break;
+                        }
                     }
                 }
                 verdict
